@@ -10,10 +10,10 @@ BLK == IF Tier = "q" THEN {N4(0), N4(253), N4(65536), <<65535, 65535, 0, 0>>}
        ELSE {N4(0), N4(1), N4(252), N4(253), N4(65535), N4(65536), <<65535, 65535, 0, 0>>, <<0, 0, 1, 0>>, A64m}
 BLK2 == IF Tier = "q" THEN {N4(0), N4(252), A32} ELSE {N4(0), N4(252), N4(253), A32, A64m}
 Spendables ==
-  {[amount |-> a, script |-> ScriptT(l), hash |-> HashX(h), index |-> x, bia |-> b1, spent |-> sp, bis |-> b2] :
+  {[amount |-> a, script |-> ScriptT(l), hash |-> HashX(h), index |-> x, bia |-> b1, spent |-> flag, bis |-> b2] :
      a \in AMTS, l \in LENS, h \in (IF Tier = "q" THEN {17} ELSE {0, 17}),
      x \in (IF Tier = "q" THEN {Zero32N, Max32N} ELSE {Zero32N, <<1, 0>>, Max32N}),
-     b1 \in BLK, sp \in BOOLEAN, b2 \in BLK2}
+     b1 \in BLK, flag \in BOOLEAN, b2 \in BLK2}
 
 VARIABLES sp, done
 vars == <<sp, done>>
@@ -21,23 +21,32 @@ vars == <<sp, done>>
 ShowField(f) == IF f.t = "hex" THEN [t |-> "hex", v |-> Show(f.v)] ELSE f
 ShowS(s) == [amount |-> s.amount, script |-> Show(s.script), hash |-> Show(s.hash), index |-> s.index,
              bia |-> s.bia, spent |-> s.spent, bis |-> s.bis]
-Record == LET d == DictForm(sp) t == TextFields(sp) IN
-  [k |-> "sp", s |-> ShowS(sp),
+RecordOf(x) == LET d == DictForm(x) t == TextFields(x) IN
+  [k |-> "sp", s |-> ShowS(x),
    sep |-> Separator,
    text |-> [i \in 1..Len(t) |-> ShowField(t[i])],
    dict |-> [key \in DOMAIN d |-> ShowField(d[key])],
-   outbin |-> Show(OutPart(sp)),
-   bin |-> Show(BinForm(sp))]
+   outbin |-> Show(OutPart(x)),
+   bin |-> Show(BinForm(x))]
 
-Init == sp \in Spendables /\ done = FALSE
-Next == /\ ~done /\ done' = TRUE /\ UNCHANGED sp
-        /\ Emit => PrintT(ToJson(Record))
+\* the spendables are dealt to NCH initial states and picked in a first step (initial states are computed
+\* by one thread; the lemmas below are then checked by all workers)
+NCH == 64
+SpSeq == SetToSeq(Spendables)
+Init == sp \in 0..(NCH - 1) /\ done = FALSE
+Next == /\ ~done /\ done' = TRUE
+        /\ \E j \in {j \in 1..Len(SpSeq) : j % NCH = sp} :
+              /\ sp' = SpSeq[j]
+              /\ Emit => PrintT(ToJson(RecordOf(SpSeq[j])))
 Spec == Init /\ [][Next]_vars
 
-TypeOK == IsSpendable(sp)
-TextRoundTrip == ParseText(TextFields(sp)) = sp
-DictRoundTrip == ParseDict(DictForm(sp)) = sp
-BinRoundTrip == LET r == ParseBin(BinForm(sp)) IN r.ok /\ r.s = sp /\ r.rest = <<>> /\ r.canon
+TypeOK == done => IsSpendable(sp)
+TextRoundTrip == done => ParseText(TextFields(sp)) = sp
+\* the character-level text and its parser (short scripts only: one element per character)
+CharsRoundTrip == (done /\ Size(sp.script) <= 253) =>
+                    LET r == ParseTextChars(TextChars(sp)) IN r.ok /\ r.s = sp
+DictRoundTrip == done => ParseDict(DictForm(sp)) = sp
+BinRoundTrip == done => LET r == ParseBin(BinForm(sp)) IN r.ok /\ r.s = sp /\ r.rest = <<>> /\ r.canon
 \* the binary form starts with the output exactly as a transaction serialises it
-BinPrefix == Take(BinForm(sp), Size(OutPart(sp))) = OutPart(sp)
+BinPrefix == done => Take(BinForm(sp), Size(OutPart(sp))) = OutPart(sp)
 =============================================================================
